@@ -118,7 +118,8 @@ def poly_post(pre, args, kwargs, result):
     ctx.check(s1 == s2 and type(back) is type(self), "polyhedron:structure",
               lambda: {"recipe": (ctx.case or {}).get("recipe"), "diff": digest.first_diff(s1, s2), "types": [type(self).__name__, type(back).__name__]})
     ids = [v.id for v in self.variables][1:]
-    if len(ids) <= 16:
+    box = [v.bounds.as_tuple() for v in self.variables][1:]
+    if refmodel.box_size(box, 1 << 16) <= (1 << 16):
         rng = _rng(ctx)
         prios = [{rng.choice(ids): rng.choice([-2, -1, 1, 2, 3]) for _ in range(rng.randint(0, 3))} for _ in range(2)] if ids else [{}]
         r1 = [(digest.result(a), b, c) for a, b, c in self.select(*[dict(p) for p in prios], solver=confgen.exact_solver_factory({}))]
@@ -134,6 +135,12 @@ def install(ctx):
 
 
 def gen_case(rng, tier, ctx, i):
+    if rng.random() < 0.2:
+        from . import polygen
+        p = polygen.gen_poly(rng, allow_int16=False)
+        if p["index"] is None or rng.random() < 0.5:
+            p["index"] = ["row-%d" % k for k in rng.sample(range(20), len(p["M"]))]       # a row index that is not the default one
+        return {"poly": p, "dpv": [rng.choice([-1, -1, -2, 0, 3]) for _ in p["ids"]], "dtype": rng.choice(["int64", "int64", "int32"])}
     if rng.random() < 0.4:
         return {"recipe": confgen.gen_config(rng, cid=rng.random() < 0.7), "cfg": True}
     o = common.varied_opts(rng, tier)
@@ -144,6 +151,13 @@ def gen_case(rng, tier, ctx, i):
 
 
 def run_case(case, ctx):
+    if "poly" in case:
+        from . import polygen
+        base = polygen.build_poly(case["poly"])
+        P = pnd.ge_polyhedron_config(numpy.asarray(base), default_prio_vector=numpy.array(case["dpv"]), variables=list(base.variables),
+                                     index=list(base.index), dtype=getattr(numpy, case["dtype"]))
+        ctx.call("polyhedron.to_b64", P.to_b64)
+        return
     c14.clear_caches()
     m = recipes.fresh(case["recipe"])
     if adapters.is_leaf(m) or adapters.validated(m) is None:
